@@ -52,6 +52,17 @@ func (s *Schema) MarkPersisted() {
 	}
 }
 
+// MarkPersistedPrefix marks the first numFields fields and the first numTagKeys tag keys as persisted
+// (fields/tag keys are only ever appended).
+func (s *Schema) MarkPersistedPrefix(numFields, numTagKeys int) {
+	for idx := 0; idx < numFields && idx < len(s.Fields); idx++ {
+		s.Fields[idx].Persisted = true
+	}
+	for idx := 0; idx < numTagKeys && idx < len(s.TagKeys); idx++ {
+		s.TagKeys[idx].Persisted = true
+	}
+}
+
 // NeedWrite checks whether the schema need persist.
 func (s *Schema) NeedWrite() bool {
 	for _, f := range s.Fields {
